@@ -167,8 +167,170 @@ pub fn net_split_checks_pad_key(repo: &PathBuf) -> Result<bool, String> {
     }
 }
 
+/// the block of the `RecordKind::Register => { .. }` arm
+struct RegArm {
+    blocks: Vec<syn::Block>,
+}
+impl<'ast> Visit<'ast> for RegArm {
+    fn visit_arm(&mut self, a: &'ast syn::Arm) {
+        if norm(&a.pat) == "RecordKind::Register" {
+            if let syn::Expr::Block(b) = &*a.body {
+                self.blocks.push(b.block.clone());
+            }
+        }
+        syn::visit::visit_arm(self, a);
+    }
+}
+
+/// Does the register arm of `Network::handle_split_record_error` skip a register whose own address does not map to the
+/// record key being read (before `verify()` / collecting it)?  Two-sided like `net_split_checks_pad_key`.
+pub fn net_split_reg_checks_key(repo: &PathBuf) -> Result<bool, String> {
+    let rel = "ant-networking/src/lib.rs";
+    let file = parse_file(&repo.join(rel))?;
+    let f = impl_fn(&file, "Network", None, "handle_split_record_error")?;
+    let mut v = RegArm { blocks: vec![] };
+    v.visit_block(&f.block);
+    if v.blocks.len() != 1 {
+        return Err(format!("{rel}:handle_split_record_error: {} `RecordKind::Register` arms with a block body", v.blocks.len()));
+    }
+    let arm = &v.blocks[0];
+    let stmts: Vec<&syn::Stmt> = arm.stmts.iter().filter(|s| !matches!(s, syn::Stmt::Macro(_))).collect();
+    let texts: Vec<String> = stmts.iter().map(|s| norm(s)).collect();
+    let deser = texts.iter().position(|t| t.starts_with("letOk(register)=try_deserialize_record::<SignedRegister>(record)else{") && t.contains("continue"));
+    let Some(deser) = deser else {
+        return Err(format!("{rel}:handle_split_record_error: register arm does not deserialise `register` with let-else-continue"));
+    };
+    let first_use = texts.iter().position(|t| t.contains(".verify()") || t.contains("collected_registers.push("));
+    let Some(first_use) = first_use else {
+        return Err(format!("{rel}:handle_split_record_error: register arm never verifies / collects a register"));
+    };
+    let is_reg_key = |side: &str| side.contains("register") && side.contains(".address()") && side.contains("from_register_address(") && side.ends_with(".to_record_key()");
+    let is_req_key = |side: &str| side == "*key" || side == "key" || side == "&*key" || side == "key.clone()";
+    let mut key_ifs: Vec<usize> = vec![];
+    for (i, s) in stmts.iter().enumerate() {
+        if let syn::Stmt::Expr(syn::Expr::If(e), _) = s {
+            let c = norm(&e.cond);
+            if !c.contains("to_record_key") {
+                continue;
+            }
+            let sides: Vec<&str> = c.split("!=").collect();
+            let ends_with_continue = matches!(e.then_branch.stmts.last(), Some(syn::Stmt::Expr(syn::Expr::Continue(c), _)) if c.label.is_none());
+            let ok = sides.len() == 2
+                && ((is_reg_key(sides[0]) && is_req_key(sides[1])) || (is_reg_key(sides[1]) && is_req_key(sides[0])))
+                && !c.contains("||")
+                && !c.contains("&&")
+                && e.else_branch.is_none()
+                && ends_with_continue
+                && !norm(&e.then_branch).contains("collected_registers");
+            if !ok {
+                return Err(format!("{rel}:handle_split_record_error: register arm compares a record key in an unknown way: `{c}`"));
+            }
+            key_ifs.push(i);
+        }
+    }
+    match key_ifs.as_slice() {
+        [i] if deser < *i && *i < first_use => Ok(true),
+        [] => {
+            let old_shape = texts.len() == 2 && deser == 0 && texts[1].starts_with("matchregister.verify(){Ok(_)=>{collected_registers.push(register);}Err(_)=>{");
+            let mentions = texts.iter().any(|t| {
+                let t = t.replace("pretty_key", "");
+                t.contains("key") || t.contains("to_record_key") || t.contains("network_address")
+            });
+            if old_shape && !mentions {
+                Ok(false)
+            } else {
+                Err(format!("{rel}:handle_split_record_error: register arm is neither the known shape without an address check nor one with a recognised `!= *key` check"))
+            }
+        }
+        _ => Err(format!("{rel}:handle_split_record_error: the record-key check of the register arm is misplaced or repeated")),
+    }
+}
+
+/// every `for` loop
+#[derive(Default)]
+struct ForLoops {
+    found: Vec<syn::ExprForLoop>,
+}
+impl<'ast> Visit<'ast> for ForLoops {
+    fn visit_expr_for_loop(&mut self, l: &'ast syn::ExprForLoop) {
+        self.found.push(l.clone());
+        syn::visit::visit_expr_for_loop(self, l);
+    }
+}
+/// every `if` with an else branch, as (cond, then, else)
+#[derive(Default)]
+struct IfElses {
+    found: Vec<(String, String, String)>,
+}
+impl<'ast> Visit<'ast> for IfElses {
+    fn visit_expr_if(&mut self, i: &'ast syn::ExprIf) {
+        if let Some((_, e)) = &i.else_branch {
+            self.found.push((norm(&i.cond), norm(&i.then_branch), norm(e)));
+        }
+        syn::visit::visit_expr_if(self, i);
+    }
+}
+
+/// The split branch of `SwarmDriver::accumulate_get_record_found` (event/kad.rs): is the union of the versions'
+/// transactions answered as one record only when EVERY version decoded as transactions (`true`: a flag initialised
+/// `true`, set `false` in the `Err(_)` arm of the loop's match on `get_transactions_from_record`, and the merged record
+/// guarded by `<flag> && !<set>.is_empty()`), or as soon as any did (`false`: `Err(_) => continue`, guard
+/// `!<set>.is_empty()`)?  Anything else is an error.
+pub fn net_acc_merge_needs_all_tx(repo: &PathBuf) -> Result<bool, String> {
+    let rel = "ant-networking/src/event/kad.rs";
+    let file = parse_file(&repo.join(rel))?;
+    let f = impl_fn(&file, "SwarmDriver", None, "accumulate_get_record_found")?;
+    let mut fl = ForLoops::default();
+    fl.visit_block(&f.block);
+    let loops: Vec<&syn::ExprForLoop> = fl.found.iter().filter(|l| norm(&l.body).contains("get_transactions_from_record(")).collect();
+    let [lp] = loops.as_slice() else {
+        return Err(format!("{rel}:accumulate_get_record_found: expected one loop calling get_transactions_from_record, found {}", loops.len()));
+    };
+    if !norm(&lp.expr).ends_with("result_map.values()") {
+        return Err(format!("{rel}:accumulate_get_record_found: the version loop iterates `{}`", norm(&lp.expr)));
+    }
+    let body = norm(&lp.body);
+    let set = "accumulated_transactions";
+    let head = format!("{{matchget_transactions_from_record(record){{Ok(transactions)=>{{{set}.extend(transactions);}}Err(_)=>{{");
+    let Some(err_arm) = body.strip_prefix(&head).and_then(|t| t.strip_suffix("}}}")) else {
+        return Err(format!("{rel}:accumulate_get_record_found: unexpected version loop `{body}`"));
+    };
+    let mut ie = IfElses::default();
+    ie.visit_block(&f.block);
+    let guards: Vec<&(String, String, String)> = ie.found.iter().filter(|(c, t, _)| c.contains(&format!("{set}.is_empty()")) && t.contains("try_serialize_record(")).collect();
+    let [(cond, _, els)] = guards.as_slice() else {
+        return Err(format!("{rel}:accumulate_get_record_found: expected one guarded merged-transactions record, found {}", guards.len()));
+    };
+    if !els.contains("SplitRecord") {
+        return Err(format!("{rel}:accumulate_get_record_found: the else branch of the merged-transactions test does not answer SplitRecord"));
+    }
+    let nonempty = format!("!{set}.is_empty()");
+    if err_arm == "continue;" {
+        return if *cond == nonempty { Ok(false) } else { Err(format!("{rel}:accumulate_get_record_found: versions that are no transactions are skipped but the merge is guarded by `{cond}`")) };
+    }
+    let Some(flag) = err_arm.strip_suffix("=false;") else {
+        return Err(format!("{rel}:accumulate_get_record_found: unexpected Err(_) arm `{err_arm}`"));
+    };
+    if flag.is_empty() || !flag.chars().all(|c| c.is_alphanumeric() || c == '_') {
+        return Err(format!("{rel}:accumulate_get_record_found: unexpected Err(_) arm `{err_arm}`"));
+    }
+    let all = norm(&f.block);
+    let init_true = all.matches(&format!("letmut{flag}=true;")).count() == 1;
+    let assigns = all.matches(&format!("{flag}=")).count() - all.matches(&format!("{flag}==")).count();
+    if !init_true || assigns != 2 {
+        return Err(format!("{rel}:accumulate_get_record_found: `{flag}` is not initialised true and assigned false exactly once"));
+    }
+    if *cond == format!("{flag}&&{nonempty}") || *cond == format!("{nonempty}&&{flag}") {
+        Ok(true)
+    } else {
+        Err(format!("{rel}:accumulate_get_record_found: the merged record is guarded by `{cond}`"))
+    }
+}
+
 pub fn generate(repo: &PathBuf) -> Result<String, String> {
     let net_split_checks = net_split_checks_pad_key(repo)?;
+    let net_split_reg_checks = net_split_reg_checks_key(repo)?;
+    let net_acc_needs_all_tx = net_acc_merge_needs_all_tx(repo)?;
     let rel_pub = "autonomi/src/client/data/public.rs";
     let rel_vault = "autonomi/src/client/vault.rs";
     let public = parse_file(&repo.join(rel_pub))?;
@@ -245,7 +407,7 @@ pub fn generate(repo: &PathBuf) -> Result<String, String> {
         None => true,
     };
 
-    let mut s = header(&format!("{rel_pub}, {rel_vault}, ant-networking/src/lib.rs"));
+    let mut s = header(&format!("{rel_pub}, {rel_vault}, ant-networking/src/lib.rs, ant-networking/src/event/kad.rs"));
     s.push_str("namespace SafeNet.Gen.ClientRead\n");
     s.push_str("/-- `chunk_get` requires the record header kind `RecordKind::Chunk` -/\n");
     s.push_str(&format!("def chunkGetChecksKind : Bool := {}\n", lean_bool(checks_kind)));
@@ -263,6 +425,10 @@ pub fn generate(repo: &PathBuf) -> Result<String, String> {
     s.push_str(&format!("def vaultSplitFiltersBeforeMax : Bool := {}\n", lean_bool(filters_before_max)));
     s.push_str("/-- `Network::handle_split_record_error`, `Scratchpad` arm: a scratchpad whose own address does not map to the record key being read is skipped before counters are compared -/\n");
     s.push_str(&format!("def netSplitChecksPadKey : Bool := {}\n", lean_bool(net_split_checks)));
+    s.push_str("/-- `Network::handle_split_record_error`, `Register` arm: a register whose own address does not map to the record key being read is skipped before it is verified or collected -/\n");
+    s.push_str(&format!("def netSplitRegChecksKey : Bool := {}\n", lean_bool(net_split_reg_checks)));
+    s.push_str("/-- `SwarmDriver::accumulate_get_record_found`, split branch: the union of the versions' transactions is answered as one record only when every version decoded as transactions (false: as soon as any did; versions of another kind were silently left out) -/\n");
+    s.push_str(&format!("def netAccMergeNeedsAllTx : Bool := {}\n", lean_bool(net_acc_needs_all_tx)));
     s.push_str("end SafeNet.Gen.ClientRead\n");
     Ok(s)
 }
